@@ -2108,7 +2108,7 @@ class Filter(Blockwise):
                 # still move further
                 if is_filter_pushdown_available(
                     self, parent, dependents, allow_reduction=False
-                ):
+                ) and not _may_raise_on_some_rows(parent.predicate, self):
                     # We can only squash 2 filters together if the predicate of parent
                     # does not directly depend on self, e.g. if
                     # sum is in the predicate of parent, then removing self would
@@ -4213,6 +4213,26 @@ def is_filter_pushdown_available(expr, parent, dependents, allow_reduction=True)
     return _check_dependents_are_predicates(
         expr, others, parent, dependents, allow_reduction
     )
+
+
+def _may_raise_on_some_rows(predicate, frame):
+    """Does the predicate, on its way down to ``frame``, contain a conversion or a
+    user function that can fail for some values (casts of missing values or of
+    strings, parsers, udfs, accessor methods)? It can then only be evaluated on
+    the rows that the filters below it keep."""
+    from dask_expr._accessor import FunctionMap
+
+    risky = (Apply, Map, Eval, ToNumeric, ToDatetime, ToTimedelta, FunctionMap)
+    stack, seen = [predicate], set()
+    while stack:
+        e = stack.pop()
+        if e._name in seen or e._name == frame._name:
+            continue
+        seen.add(e._name)
+        if isinstance(e, risky) or isinstance(e, AsType) and not e._cast_is_lossless():
+            return True
+        stack.extend(e.dependencies())
+    return False
 
 
 def rewrite_filters(predicate):
